@@ -6,6 +6,7 @@ import (
 	"encoding/json"
 	"fmt"
 	"os"
+	"os/exec"
 	"path/filepath"
 	"strings"
 	"time"
@@ -60,7 +61,75 @@ func writeFault(job hk.Job) *hk.Result {
 	return res
 }
 
+// straced: the kill model assumes one write(2) per acknowledged event. The
+// thorough tier cross-checks that on the real sink with strace: a child process
+// writes events of known sizes through rotations and the trace must show exactly
+// one write system call of exactly that size per event on the log files.
+func stracedChild(dir string) {
+	fs := &el.FileSink{Path: dir, FileName: "audit.log", MaxBytes: 40, TimestampOnlyOnRotate: true}
+	for i := 0; i < 6; i++ {
+		b := []byte(strings.Repeat(string(rune('a'+i)), 20+i) + "\n")
+		if _, err := fs.Process(context.Background(), &el.Event{Type: "t", Formatted: map[string][]byte{el.JSONFormat: b}}); err != nil {
+			fmt.Println("child: Process failed:", err)
+			os.Exit(3)
+		}
+		if i == 3 {
+			fs.Reopen()
+		}
+	}
+}
+
+func straceCheck(job hk.Job) *hk.Result {
+	res := &hk.Result{}
+	scratch := os.Getenv("VERIF_SCRATCH")
+	os.MkdirAll(scratch, 0o755)
+	dir, _ := os.MkdirTemp(scratch, "st")
+	defer os.RemoveAll(dir)
+	trace := filepath.Join(dir, "trace.txt")
+	logs := filepath.Join(dir, "logs")
+	cmd := exec.Command("strace", "-f", "-e", "trace=write", "-o", trace, os.Args[0], "-straced", logs)
+	out, err := cmd.CombinedOutput()
+	res.Add("execs", 1)
+	res.Add("steps", 6)
+	res.Add("nodes", 1)
+	if err != nil {
+		// strace unavailable / ptrace forbidden: the assumption stays an assumption
+		res.Outcome("strace unavailable: " + strings.TrimSpace(string(out)))
+		res.Add("strace_unavailable", 1)
+		return res
+	}
+	b, _ := os.ReadFile(trace)
+	sizes := map[int]int{}
+	for _, line := range strings.Split(string(b), "\n") {
+		if !strings.Contains(line, "write(") || strings.Contains(line, "write(1,") || strings.Contains(line, "write(2,") {
+			continue
+		}
+		i := strings.LastIndex(line, "= ")
+		if i < 0 {
+			continue
+		}
+		var n int
+		fmt.Sscanf(line[i+2:], "%d", &n)
+		sizes[n]++
+	}
+	for i := 0; i < 6; i++ {
+		want := 21 + i
+		if sizes[want] != 1 {
+			res.Violations = append(res.Violations, hk.Viol{Scn: job.Scn, Name: "strace cross-check", Kind: "oracle",
+				Detail: fmt.Sprintf("the kill model assumes one write(2) per acknowledged event, but the trace shows %d write call(s) of %d bytes for event %d (write sizes seen: %v)", sizes[want], want, i, sizes)})
+			return res
+		}
+	}
+	res.Outcome("strace: one write(2) of the exact size per acknowledged event")
+	res.Add("strace_crosscheck_events_confirmed", 6)
+	return res
+}
+
 func main() {
+	if len(os.Args) == 3 && os.Args[1] == "-straced" {
+		stracedChild(os.Args[2])
+		return
+	}
 	hk.Main(&hk.Check{
 		ID: prop,
 		Scenarios: func(tier string) []string {
@@ -77,12 +146,16 @@ func main() {
 				n = append(n, c.Name)
 			}
 			n = append(n, "persistent write fault (active file is a symbolic link to /dev/full)")
+			n = append(n, "strace cross-check of the kill model: one write(2) per acknowledged event")
 			return n
 		},
 		SplitScenario: func(tier string, scn int) bool { return scn >= len(hn.FSJobList(tier)) },
 		RunJob: func(tier string, job hk.Job, deadline time.Time) *hk.Result {
 			if nj := len(hn.FSJobList(tier)); job.Scn == nj+len(hn.FSConcScenarios(tier)) {
 				return writeFault(job)
+			}
+			if nj := len(hn.FSJobList(tier)); job.Scn == nj+len(hn.FSConcScenarios(tier))+1 {
+				return straceCheck(job)
 			}
 			if nj := len(hn.FSJobList(tier)); job.Scn >= nj {
 				sc := hn.FSConcScenarios(tier)[job.Scn-nj]
@@ -104,7 +177,7 @@ func main() {
 		},
 		Rule: "every operation history of length 4 (quick) / 5 (thorough) over {write of 1, MaxBytes-1, MaxBytes, MaxBytes+1, 200 bytes with unique content; Reopen; external rename of the active file followed by Reopen; clock +1ns; clock +31ms} plus every history of length 6 (7) over the reduced alphabet {1 byte, MaxBytes+1 bytes, Reopen, +31ms} (files pile up over several Reopens before retention runs), for each of 128 configurations (MaxBytes 0/8/64/300 x MaxFiles 0..3 x MaxDuration 0/30ms x TimestampOnlyOnRotate x default mode and fresh directory / mode 0640 with a pre-existing file and bystanders) on the real FileSink over a real directory with the virtual clock. Oracle at every file-system call the sink makes (= every state a SIGKILL can leave) and after every step: the sink's files read oldest to newest (identities tracked through the sink's own renames/removals) concatenate to exactly the acknowledged events; files vanish only through the sink's own retention; bystander files survive. Concurrent part: 2-3 writer threads and a Reopen thread on one sink (MaxBytes=8 so rotations interleave), every schedule within the preemption bound: the files parse into whole acknowledged events, each once, in an order consistent with the calls' real-time order.",
 		Assumptions: []string{
-			"kill model: each effect of the sink is one system call and an append of <=200 bytes to a regular file is not torn by SIGKILL, so the states between consecutive calls are all the crash states",
+			"kill model: each effect of the sink is one system call and an append of <=200 bytes to a regular file is not torn by SIGKILL, so the states between consecutive calls are all the crash states; 'one write(2) of the exact size per acknowledged event' is cross-checked with strace on a child process (skipped with a note if ptrace is not permitted)",
 			"concurrent scenarios: <=3 writers + 1 Reopen thread, preemption bound 1-3; 8 writers of the statement are not reached",
 			"write faults: only the persistent one (symbolic link to /dev/full) is injected: an acknowledged event must be present, so Process must not succeed when nothing could be written",
 		},
